@@ -59,6 +59,17 @@ func (t *Traverser) TraverseSubjectSetExpansion(ctx context.Context, start *rela
 		return nil, err
 	}
 
+	// In strict mode, relation tuples for permits are not checked directly (only
+	// the rewrites are applied). That must also hold when the permission is
+	// reached as a subject set: the "found" shortcut below is a direct check.
+	var namespaceManager namespace.Manager
+	if t.d.Config(ctx).StrictMode() {
+		namespaceManager, err = t.d.Config(ctx).NamespaceManager()
+		if err != nil {
+			return nil, err
+		}
+	}
+
 	shardID := uuid.Nil
 	for {
 		var (
@@ -100,13 +111,19 @@ LIMIT ?
 				return nil, errors.WithStack(err)
 			}
 			to.Subject = start.Subject
+			found := r.Found
+			if found && namespaceManager != nil {
+				if astRel, _ := namespace.ASTRelationFor(ctx, namespaceManager, to.Namespace, to.Relation); astRel != nil && astRel.SubjectSetRewrite != nil {
+					found = false
+				}
+			}
 			res = append(res, &relationtuple.TraversalResult{
 				From:  start,
 				To:    to,
 				Via:   relationtuple.TraversalSubjectSetExpand,
-				Found: r.Found,
+				Found: found,
 			})
-			if r.Found {
+			if found {
 				return res, nil
 			}
 		}
